@@ -230,6 +230,9 @@ def r5(tree, rep, tier):
     KINDS = {"closed-twice": "closed is delivered to the application twice",
              "event-after-closed": "an event is delivered to the application after closed",
              "closed-with-claim-held": "closed delivered while the server still holds our nameplate claim",
+             "closed-with-allocation-claim-held": "closed delivered while the server still holds the claim it made on our behalf when it "
+                                                  "allocated the nameplate (close() before the `allocated` reply was processed: the "
+                                                  "Nameplate machine never learned a nameplate, so nothing is released)",
              "closed-with-mailbox-open": "closed delivered while our mailbox is still open at the server",
              "closed-before-rc-stopped": "closed delivered before the server connection was shut down",
              "verdict": "wrong close() verdict", "mood": "wrong mood sent with close",
